@@ -73,7 +73,7 @@ def run_case(case, rep, record=True):
             rep.fail(f.bucket, f.detail, dict(case, ops=list(case["ops"][:upto])))
     try:
         modes = dict(case["modes"])
-        h = walk.build_harness(case["source"], modes)
+        h = walk.build_harness(case["source"], modes, foreign=case.get("foreign"))
         env, scn, spec = h.env, h.scn, h.spec
         if record:
             rep.evaluated()
